@@ -693,7 +693,7 @@ impl World {
 
 impl Drop for World {
     fn drop(&mut self) {
-        if !self.keep_dir {
+        if !self.keep_dir && std::env::var("KVH_KEEP_DIRS").is_err() {
             let _ = std::fs::remove_dir_all(&self.dir);
         }
     }
